@@ -35,7 +35,8 @@ def make_obs(ctx):
     # (window lines, line length factor, chunk, stream bytes)
     cfgs = [(2, 4, 2, 3), (2, 4, 2, 4)]
     if ctx.tier == 'thorough':
-        cfgs += [(3, 3, 3, 4), (2, 3, 2, 5), (3, 3, 2, 5), (2, 4, 3, 5)]
+        # (3, 3, 2, 5) needs more than the 12 GB a query may use here
+        cfgs += [(3, 3, 3, 4), (2, 3, 2, 5), (3, 3, 2, 4), (2, 4, 3, 5)]
     for (nl, ll, ch, sl) in cfgs:
         d = {'VERIF_MAX_NLINES': nl, 'VERIF_MAX_LLEN': ll, 'VERIF_CHUNK_SIZE': ch, 'SLEN': sl, 'NREADS': sl}
         obs.append(Ob('chunking:win%dx%d:chunk%d:stream%d' % (nl, ll, ch, sl), 'C18_chunk.c', 'h_chunking', d,
